@@ -291,7 +291,8 @@ class MD3(DriftDetector):
 
         # the check above is on the set of columns: store the sample in the
         # reference's column order
-        labeled_sample = labeled_sample[reference_columns]
+        # a private copy: the stored samples must not follow later changes of the caller's frame
+        labeled_sample = labeled_sample[reference_columns].copy()
 
         if self.oracle_data is None:
             self.oracle_data = labeled_sample
